@@ -1119,14 +1119,47 @@ fn explore16(h: &[usize], st: &mut CrashStats, report: &mut dyn FnMut(String, J,
                     Ok(Ok(env)) => {
                         let kgs = env.handler.get_storage().list_knowledge_graphs();
                         let got = cat_of(&env);
-                        std::mem::forget(std::mem::replace(&mut { env }.scratch, Scratch(PathBuf::from("/nonexistent-verif"))));
+                        // the image directory belongs to the outer `scratch`: every Env over it gives its handle up
+                        let release = |e: Env| std::mem::forget(std::mem::replace(&mut { e }.scratch, Scratch(PathBuf::from("/nonexistent-verif"))));
                         if !kgs.iter().any(|k| k == "A") {
+                            release(env);
                             // the KG itself may legitimately be missing only while its creation has not completed
                             return if crash <= first { None } else { Some((format!("knowledge_graph_lost:{kind}"), format!("KG A is not listed after recovery: {kgs:?}"))) };
                         }
                         if adm.contains(&got) {
-                            None
+                            // probe suffix: the recovered store keeps working - one acknowledged catalog update that
+                            // SHRINKS each catalog that has an entry (a drop) or grows an empty one, then a clean
+                            // restart; the catalogs served after the restart must be the ones served before it
+                            let rule_op = match got.0.keys().next() {
+                                Some(name) => format!(".rule drop {name}"),
+                                None => "+zprobe(X) <- e(X)".to_string(),
+                            };
+                            let _ = env.query_program(Some("A"), &rule_op);
+                            match got.1.keys().next() {
+                                Some(name) => {
+                                    let _ = env.handler.get_storage().remove_schema_in("A", name);
+                                }
+                                None => {
+                                    let _ = env.query_program(Some("A"), "+zschema(a: int)");
+                                }
+                            }
+                            let live = cat_of(&env);
+                            let v = match catch_unwind(AssertUnwindSafe(|| env.restart())) {
+                                Err(p) => Some((format!("latent_damage:restart_after_recovery_panicked:{kind}"), crate::e1::panic_msg(&p))),
+                                Ok(Err(e)) => Some((format!("latent_damage:store_unopenable_after_recovery_and_update:{kind}"), format!("recovered catalogs {got:?}; then `{rule_op}` and a schema update were acknowledged; the clean restart failed: {e}"))),
+                                Ok(Ok(env2)) => {
+                                    let after = cat_of(&env2);
+                                    release(env2);
+                                    if after == live {
+                                        None
+                                    } else {
+                                        Some((format!("latent_damage:catalog_differs_after_recovery_update_restart:{kind}"), format!("recovered catalogs {got:?}; after `{rule_op}` and a schema update the store served {live:?}; after a clean restart it serves {after:?}")))
+                                    }
+                                }
+                            };
+                            v
                         } else {
+                            release(env);
                             let emptied = (got.0.is_empty() && adm.iter().all(|a| !a.0.is_empty())) || (got.1.is_empty() && adm.iter().all(|a| !a.1.is_empty()));
                             let mode = if emptied { "catalog_silently_emptied" } else { "catalog_neither_old_nor_new" };
                             Some((format!("{mode}:{kind}"), format!("recovered rules {:?} schemas {:?}; admissible {adm:?}", got.0, got.1)))
